@@ -31,6 +31,8 @@ pub struct Config {
     pub member_ok: Box<dyn Fn(usize) -> bool + Send + Sync>,
     /// the word alphabet adequate for this configuration
     pub alpha: AlphaKind,
+    /// also explore on the alphabet with the extreme words
+    pub extreme_pass: bool,
 }
 
 #[derive(Clone, Copy, Debug)]
@@ -178,6 +180,7 @@ pub fn leaf_configs(max_n: usize) -> Vec<Config> {
                 admits: Box::new(move |n| leaf_admits(l, n)),
                 member_ok: Box::new(move |n| leaf_member(l, n)),
                 alpha: if matches!(l, Leaf::Lex(_)) { AlphaKind::Shuffles } else { AlphaKind::Ranges },
+                extreme_pass: true,
             });
         }
         // a lone Weighted
@@ -195,6 +198,7 @@ pub fn leaf_configs(max_n: usize) -> Vec<Config> {
                 admits: Box::new(move |n| if w == 0 { set(&[ErrKind::ZeroWeight]) } else { leaf_admits(l, n) }),
                 member_ok: Box::new(move |n| w != 0 && leaf_member(l, n)),
                 alpha: if matches!(l, Leaf::Lex(_)) { AlphaKind::Shuffles } else { AlphaKind::Ranges },
+                extreme_pass: false,
             });
         }
     }
@@ -234,7 +238,7 @@ pub fn combo_configs(quick: bool) -> Vec<Config> {
             }
             let mk = |name: &str, run: Runner, w: &Vec<u32>| {
                 let (admits, member_ok) = combo_oracles(k, w.clone());
-                Config { name: format!("{name}{w:?}"), run, admits, member_ok, alpha: if k == 4 { AlphaKind::Both } else { AlphaKind::Ranges } }
+                Config { name: format!("{name}{w:?}"), run, admits, member_ok, alpha: if k == 4 { AlphaKind::Both } else { AlphaKind::Ranges }, extreme_pass: false }
             };
             match k {
                 2 => {
@@ -276,7 +280,7 @@ pub fn combo_configs(quick: bool) -> Vec<Config> {
                 d = d.with_selector(t2(), w[2] as usize);
             }
             let (admits, member_ok) = combo_oracles(k, w.clone());
-            out.push(Config { name: format!("DynWeighted{w:?}"), run: direct(d), admits, member_ok, alpha: AlphaKind::Ranges });
+            out.push(Config { name: format!("DynWeighted{w:?}"), run: direct(d), admits, member_ok, alpha: AlphaKind::Ranges, extreme_pass: false });
         }
     }
     out
@@ -287,19 +291,37 @@ pub fn pop_of(values: &[i64]) -> Pop {
     mk_pop_matrix(&rows)
 }
 
+/// the same configuration on the alphabet that also contains the extreme words 0 and all-ones
+fn extreme_alphabet(kind: AlphaKind) -> Alphabet {
+    match kind {
+        AlphaKind::Ranges => Alphabet::Ext(6),
+        AlphaKind::Shuffles | AlphaKind::Both => Alphabet::Mixed { m: 6, r: 479_001_600, k: 6 },
+    }
+}
+
 /// explore one (configuration, population)
 fn scenario(c: &Config, values: &[i64]) -> (u64, u64, Option<(String, String)>, usize, bool) {
+    let a = scenario_on(c, values, alphabet_for(c.alpha, values.len()));
+    // (leaf configurations only: weighted combinations sample through rand's rejection loop, which the
+    // all-zero word never leaves, so their trees on this alphabet are cut by the horizon anyway)
+    if a.2.is_some() || values.len() > 3 || values.is_empty() || !c.extreme_pass {
+        return a;
+    }
+    let b = scenario_on(c, values, extreme_alphabet(c.alpha));
+    (a.0 + b.0, a.1 + b.1, b.2, a.3.max(b.3), a.4 || b.4)
+}
+
+fn scenario_on(c: &Config, values: &[i64], alpha: Alphabet) -> (u64, u64, Option<(String, String)>, usize, bool) {
     let n = values.len();
     let pop = pop_of(values);
     let admits = (c.admits)(n);
     let member_ok = (c.member_ok)(n);
-    let alpha = alphabet_for(c.alpha, n);
     let mut outcomes: BTreeSet<SelObs> = BTreeSet::new();
     let mut bad: Option<(String, String)> = None;
     let label = format!("{} on values {values:?}", c.name);
     let st = explore(
         |env| {
-            env.horizon = 8;
+            env.horizon = if matches!(alpha, Alphabet::Ext(_)) || c.extreme_pass && matches!(alpha, Alphabet::Mixed { m: 6, .. }) { 5 } else { 8 };
             (c.run)(&pop, env, alpha)
         },
         |_, _, o| {
@@ -476,7 +498,7 @@ pub fn run(run: &mut Run) {
     run.distinct_nontrivial = nontrivial;
     ragged_lexicase(run);
     run.traces_validated = run.evaluations;
-    run.rule = "every selector configuration (Best, Worst, Random, Tournament(1..n+1), Lexicase(0..3 cases, 2 results available), lone Weighted, WeightedPair nestings of 2..4 real selectors, DynWeighted lists of 1..3; direct, behind &, through Select, and type-erased) x every population of size 0..n over 3 values x every word sequence of the mixed Grid(12)+Rep(12!,24) alphabet; plus Lexicase(0..3), direct and erased, on every ragged population (each individual with its own 0..3 results); non-trivial = scenarios with more than one distinct outcome".into();
+    run.rule = "every selector configuration (Best, Worst, Random, Tournament(1..n+1), Lexicase(0..3 cases, 2 results available), lone Weighted, WeightedPair nestings of 2..4 real selectors, DynWeighted lists of 1..3; direct, behind &, through Select, and type-erased) x every population of size 0..n over 3 values x every word sequence of the mixed Grid(12)+Rep(12!,24) alphabet, and (n <= 3) of the alphabets that add the extreme words 0 and all-ones; plus Lexicase(0..3), direct and erased, on every ragged population (each individual with its own 0..3 results); non-trivial = scenarios with more than one distinct outcome".into();
     run.bound("max_population", json!(max_n));
     run.bound("configurations", json!(configs.len()));
     run.bound("populations", json!(pops.len()));
